@@ -37,6 +37,8 @@ QUERIES = [
     "mutation { m1 { id bestFriend { name } } m2 { name } m3 { req } }",
     "mutation { m3 { req } m1 { friends { id } } m2 { nnFriend { req } } }",
     "{ nn { nnFriend { nnFriend { req } } } me { id } }",
+    "mutation { m1 { name req id } m2 { id } }",
+    "mutation { m1 { bestFriend { name req } id } m2 { name req } m3 { id } }",
 ]
 
 FIELDS_OBJ = ["id", "name", "req", "bestFriend", "nnFriend", "friends", "nnFriends"]
@@ -69,7 +71,17 @@ class World:
             elif what == "raise":
                 exc = RuntimeError("boom@" + "/".join(map(str, path)))
             if mode == "async" and self.h[0] is not None:
-                return self.h[0].future(path, val, exc)
+                fut = self.h[0].future(path, val, exc)
+                if len(path) % 3 == 0:
+                    return fut
+
+                async def coro(_f=fut, _p=path):
+                    self.log.append(("begin", _p))
+                    try:
+                        return await _f
+                    finally:
+                        self.log.append(("end", _p))
+                return coro()
             if exc is not None:
                 raise exc
             return val
@@ -172,6 +184,67 @@ def memo_monitor(violations):
     return lambda: setattr(ex.Executor, "collect_subfields", orig)
 
 
+def is_type_of_scenarios(ck, quick):
+    """Abstract type resolution through is_type_of / resolve_type with every sync/awaitable mix."""
+    import itertools as it
+    from graphql import (GraphQLField, GraphQLInterfaceType, GraphQLList, GraphQLObjectType, GraphQLSchema, GraphQLString,
+                         GraphQLUnionType, execute, execute_sync, parse)
+    n = 0
+    names = ["Dog", "Cat", "Cow"]
+    doc = parse("{ pets { __typename name } one { ... on Dog { name } ... on Cat { name } ... on Cow { name } } }")
+    for modes in it.product(("sync", "async"), repeat=3):
+        for use_resolve_type in (False, True):
+            for rt_mode in (("sync", "async") if use_resolve_type else ("sync",)):
+                def build(async_ok, ctl=None):
+                    def mk_is_type_of(tname, mode):
+                        def fn(value, _info):
+                            ans = value.get("kind") == tname
+                            if mode == "async" and async_ok:
+                                return ctl.future(("is_type_of", tname, id(value) % 1000), ans)
+                            return ans
+                        return fn
+
+                    def resolve_type(value, _info, _t):
+                        if rt_mode == "async" and async_ok:
+                            return ctl.future(("resolve_type", id(value) % 1000), value["kind"])
+                        return value["kind"]
+                    iface = GraphQLInterfaceType("Pet", {"name": GraphQLField(GraphQLString)},
+                                                 resolve_type=resolve_type if use_resolve_type else None)
+                    types = [GraphQLObjectType(t, {"name": GraphQLField(GraphQLString)}, interfaces=[iface],
+                                               is_type_of=None if use_resolve_type else mk_is_type_of(t, m))
+                             for t, m in zip(names, modes)]
+                    union = GraphQLUnionType("U", types, resolve_type=resolve_type if use_resolve_type else None)
+                    q = GraphQLObjectType("Query", {"pets": GraphQLField(GraphQLList(iface)), "one": GraphQLField(union)})
+                    return GraphQLSchema(q, types=types)
+                root = {"pets": [{"kind": k, "name": k.lower()} for k in ("Cow", "Dog", "Cat", "Dog")],
+                        "one": {"kind": "Cat", "name": "tom"}}
+                ref = execute_sync(build(False), doc, root)
+                labels_seen = []
+                for order in ("fifo", "lifo"):
+                    ctl = Controller()
+
+                    def make(c):
+                        return execute(build(True, c), doc, root)
+                    # priority decided lazily: fifo = creation order, lifo = reverse creation order
+                    if order == "fifo":
+                        kind, res = ctl.run(make, [])
+                    else:
+                        probe = Controller()
+                        probe.run(lambda c: execute(build(True, c), doc, root), [])
+                        kind, res = ctl.run(make, list(reversed(probe.completed_order)))
+                    n += 1
+                    key = f"type-resolution:{modes}:{use_resolve_type}:{rt_mode}:{order}"
+                    ck.note_case(("tr", modes, use_resolve_type, rt_mode, order), nontrivial="async" in modes or rt_mode == "async")
+                    if kind in ("hang", "raised", "cancelled"):
+                        ck.violation(key, f"execute with awaitable type resolution ended as {kind}: {res!r}"[:300],
+                                     {"relation": "data(order) == data(sync)", "modes": modes, "resolve_type": use_resolve_type})
+                    elif res.formatted != ref.formatted:
+                        ck.violation(key, f"awaitable is_type_of/resolve_type mix {modes} (resolve_type={use_resolve_type}/{rt_mode}, {order}) changes the response",
+                                     {"relation": "data(order) == data(sync)", "modes": modes, "resolve_type": use_resolve_type,
+                                      "impl": res.formatted, "reference": ref.formatted})
+    return n
+
+
 def run(tier):
     from graphql import build_schema, execute, execute_sync, parse
 
@@ -195,7 +268,7 @@ def run(tier):
     nreq = 0
     try:
         for q, doc in docs:
-            ntrials = 6 if quick else 40
+            ntrials = 12 if quick else 60
             for trial in range(ntrials):
                 # behaviours are assigned lazily by path: first discover paths with an all-sync run
                 log0 = []
@@ -210,7 +283,9 @@ def run(tier):
                     for p in paths:
                         x = rng.random()
                         mode = "async" if rng.random() < 0.3 else "sync"
-                        what = "raise" if x < 0.10 else ("null" if x < 0.17 else "value")
+                        nonnull = p[-1] in ("req", "nnFriend", "nnFriends", "nn", "m3")
+                        lim = (0.2, 0.4) if nonnull and trial % 2 else (0.10, 0.17)
+                        what = "raise" if x < lim[0] else ("null" if x < lim[1] else "value")
                         if mode != "sync" or what != "value":
                             beh[p] = (mode, what)
                 natural = {p for p, (m, wh) in beh.items() if wh == "null"}
@@ -267,9 +342,20 @@ def run(tier):
                         if any(b < a for a, b in zip(seq, seq[1:])):
                             ck.violation(key, f"root mutation fields not resolved serially: invocation order of root indices {seq}",
                                          dict(rep, relation="mutation roots strictly one after another", impl=seq))
-                        # a root may start only after every awaitable below the previous roots completed
-                        for i, (ev, p) in enumerate(loga):
-                            pass
+                        # a root may start only after every awaitable below the previous roots has wound up
+                        running = {}
+                        for ev, p in loga:
+                            if ev == "begin":
+                                running[p] = roots.index(p[0])
+                            elif ev == "end":
+                                running.pop(p, None)
+                            elif ev == "call" and len(p) == 1:
+                                late = [q for q, ri in running.items() if ri < roots.index(p[0])]
+                                if late:
+                                    ck.violation(key, f"root mutation field {p[0]!r} started while {late[0]!r} of an earlier root field was still running",
+                                                 dict(rep, relation="each root mutation field starts only after the previous one and its whole subtree completed",
+                                                      impl=repr(late)))
+                                    break
                     if memo_viol:
                         t, got, want = memo_viol[0]
                         ck.violation("memo:" + key, f"sub-selection memo returned the fields {got} for a field group whose sub-selection is {want} (type {t})",
@@ -278,6 +364,7 @@ def run(tier):
     finally:
         if undo:
             undo()
+    nreq += is_type_of_scenarios(ck, quick)
     ck.count("runs", nreq)
     ck.samples.append({"query": QUERIES[0], "async": "slow", "order": "all"})
     # correspondence of the error algebra model on recorded add sequences is done in Properties (pure);
